@@ -13,6 +13,18 @@ E2 = "explicit-state search over operation histories of the real objects against
 E3 = "bounded-exhaustive input/configuration enumeration against a reference model (depth-1 model checking)"
 
 CHECKS = {
+    "C11": dict(
+        engine="E1-sched (operation sequences)",
+        category="model_checking",
+        technique="bounded exhaustive enumeration of operation sequences executed on the real transports under a virtual clock; oracle over every write-delimited window",
+        text="All operation sequences (idle gap x burst size x frame length x sequential/concurrent) to depth 2 (thorough: depth 3 over a smaller "
+        "alphabet) plus steady streams below/at/above the limit followed by a burst, run on the real PortTransport.write_frame - the module is "
+        "re-imported under a virtual perf_counter so the real @limit_duty_cycle closure and leaky semaphore are fresh - and on the real "
+        "MqttTransport.write_frame with a fake paho client. For every pair of writes: bits <= fill x dt + one bucket + pending frames; count <= dt/gap + 2; "
+        "every accepted frame written once, unaltered, in order; MQTT publishes within the token allowance, over-budget writes dropped.",
+        design_ref="4/C11",
+        note="Deemed bits per frame are the library's own accounting constant; idle gaps up to 600 s; the MQTT bound uses the initial double bucket (2 x 80).",
+    ),
     "C06": dict(
         engine="E3-enum on the real FSM",
         category="exploration",
